@@ -82,7 +82,7 @@ fn z_curve_partition<const D: usize>(
     let threshold_idx = (points_per_partition + 1) * remainder;
     permutation[..threshold_idx]
         .par_chunks(points_per_partition + 1)
-        .chain(permutation[threshold_idx..].par_chunks(points_per_partition))
+        .chain(permutation[threshold_idx..].par_chunks(usize::max(1, points_per_partition)))
         .enumerate()
         .for_each(|(id, chunk)| {
             let ptr = atomic_handle.load(atomic::Ordering::Relaxed);
